@@ -210,7 +210,7 @@ V('df1-unfiltered', ['C03'], P,
 V('uk-math', ['C19'], P,
   "            if not (math or tok.txt in self.unknowns):", "            if not (tok.txt in self.unknowns):", 'UK')
 V('uk-dup', ['C19'], P,
-  "            if not (math or name in self.unknowns):", "            if not math:", 'UK')
+  "            if name and not (math or name in self.unknowns):", "            if name and not math:", 'UK')
 V('uk-mathflag', ['C19'], MP,
   "t = parser.expand_macro(buf, tok, True)", "t = parser.expand_macro(buf, tok, False)", 'UK')
 V('uk-neutral', ['C19'], P,
